@@ -5,6 +5,7 @@
    T <tid> <tt> <hexlit|->                      plain token
    P <tid> <hexname> <ref> <list> <rank> <tyid> placeholder token (key abstraction as in C20)
    A <aid> <fn> <neg> <gen> ; <tid>.. ; <hexname>:<ty>:<ref> ..      declare an alias (in program order)
+   NB <aid> <gen-name-id> <base id>..          inst_ok of this alias: the type parameter must be bound to one of these base types
    C <cid> <start> <buchstabe-ty> ; <tid>.. ; <pos>:<valty|->:<refty|->:<textidx> .. ; <aid>..
         stream ; per argument start: type when parsed as expression / as assignable ; aliases whose instantiation fails
      -> R <cid> <SEL|FB|GERR|NONE> <aid|-> <neg> <end|-> ; <hexname>=<ref>:<from>:<to> .. ; <aid>:<ok> .. (candidates, trie order) ; <aid>.. (maximal type-matching set) ; <aid>.. (maximal candidates)
@@ -46,6 +47,9 @@ let parse_param f =
   | [nm; t; r] -> { p_name = hexn nm; p_ty = parse_ty t; p_ref = (r = "1") }
   | _ -> failwith ("bad param " ^ f)
 
+(* NB <aid> <gen-name-id> <base id>..: the body of this generic function only instantiates when the type parameter is one of these base types *)
+let numeric : (int, n * int list) Hashtbl.t = Hashtbl.create 8
+
 let otable : odecl list ref = ref []
 let ocast = ref false
 
@@ -56,7 +60,8 @@ let () =
   let lines = read_lines stdin in
   List.iter (fun line ->
     match split_semi line with
-    | ["POP"] :: _ -> Hashtbl.reset vocab; aliases := []; trie := declare_all []
+    | ["POP"] :: _ -> Hashtbl.reset vocab; Hashtbl.reset numeric; aliases := []; trie := declare_all []
+    | ("NB" :: aid :: g :: bs) :: _ -> Hashtbl.replace numeric (int_of_string aid) (n_of_int (int_of_string g), List.map int_of_string bs)
     | ["T"; id; tt; l] :: _ ->
       Hashtbl.replace vocab (int_of_string id) { tt = n_of_int (int_of_string tt); lit = hexn l; ainfo = None }
     | ["P"; id; nm; r; l; rank; tid] :: _ ->
@@ -86,7 +91,12 @@ let () =
         | None -> None in
       let text_index c = match Hashtbl.find_opt tab (int_of_nat c) with Some (_, _, x) -> x | None -> false in
       let fails = List.map int_of_string failf in
-      let inst_ok a _ = not (List.mem (int_of_n a.a_id) fails) in
+      let rec genv_find e g = match e with [] -> None | (m, t) :: r -> if int_of_n m = int_of_n g then Some t else genv_find r g in
+      let inst_ok a e =
+        not (List.mem (int_of_n a.a_id) fails) &&
+        (match Hashtbl.find_opt numeric (int_of_n a.a_id) with
+         | None -> true
+         | Some (g, bs) -> (match genv_find e g with Some (TBase b) -> List.mem (int_of_n b) bs | _ -> false)) in
       let b = parse_ty bty in
       let st = nat_of_int (int_of_string start) in
       let cands = candidates s !trie st in
